@@ -1,9 +1,131 @@
-import Driver.Util
-/-! Driver for C20: not built yet. -/
+import Driver.TransportCommon
+/-! Driver for C20 (unit level): model correspondence + the property's specification on the
+implementation's own outputs:
+* a session slot is `reserved` only while a live `ReservedSession` owns it; dropping the handle
+  without `complete` frees the slot, `complete` turns it into an ordinary session;
+* the table refuses a new session exactly when it is full (the transport then answers busy or evicts);
+* eviction picks only a session that is not reserved and carries no exchange; when every session's
+  last use lies strictly in the past it finds one whenever such a session exists;
+* ending a handshake (dropping its `ReservedSession`, completed or not) or an exchange never panics,
+  whatever happened to the session meanwhile;
+* at quiescence (every handle dropped, closer ran until it found nothing) no session is reserved and
+  no exchange slot is occupied by an owned or dropped exchange. -/
 namespace Driver.C20
+open Driver.TC
 
-def run : IO UInt32 := do
-  IO.eprintln "C20: driver not built yet"
-  return 2
+structure OSt where
+  prev : ISnap := {}
+  /-- handle → session uid of live `ReservedSession`s -/
+  rsv : List (Nat × Nat) := []
+  /-- live `Exchange` handles -/
+  exh : List Nat := []
+  /-- the previous op was a positive time step -/
+  afterTick : Bool := false
+  /-- the previous op was the closer answering `none` -/
+  closerIdle : Bool := false
+
+structure St where
+  m : MSt := {}
+  o : OSt := {}
+
+def idle (s : ISess) : Bool := !s.reserved && s.live.isEmpty
+
+def oracle (o : OSt) (w : List String) (res : String) (snap : ISnap) : OSt × Option String :=
+  let n (i : Nat) : Nat := ((w.getD i "").toNat?).getD 0
+  let rw := words res
+  let op := w.getD 0 ""
+  let full := o.prev.sessions.length ≥ Consts.maxSessions
+  let (o1, v) : OSt × Option String :=
+    match op with
+    | "add" =>
+      (o, if full then (if res = "err NoSpaceSessions" then none else some s!"table full but add answered '{res}'")
+          else (if rw.head? = some "id" then none else some s!"table not full but add answered '{res}'"))
+    | "rsv" =>
+      match hnum (w.getD 1 ""), rw with
+      | some h, "id" :: u :: _ =>
+        ({ o with rsv := (h, u.toNat?.getD 0) :: o.rsv },
+          if full then some "table full but a slot was reserved"
+          else if (snap.sess (u.toNat?.getD 0)).any (·.reserved) then none else some "reserved session not marked reserved")
+      | _, _ =>
+        (o, if res = "dup-handle" || res = "bad" then none
+            else if full then (if res = "err NoSpaceSessions" then none else some s!"table full but reserve answered '{res}'")
+            else some s!"table not full but reserve answered '{res}'")
+    | "cmp" | "drp" =>
+      if res = "panic" then
+        (o, some s!"dropping the handshake's session handle panicked ({op}): the node goes down")
+      else
+      match hnum (w.getD 1 "") with
+      | some h =>
+        match o.rsv.find? (·.1 == h) with
+        | some (_, uid) =>
+          let o' := { o with rsv := o.rsv.filter (·.1 != h) }
+          if (o.prev.sess uid).isNone then (o', none)   -- the session was removed under the handle (eviction / rm)
+          else if op = "drp" then
+            (o', if (snap.sess uid).isSome then some s!"abandoned handshake: reserved session {uid} not released" else none)
+          else
+            (o', match snap.sess uid with
+              | some s => if s.reserved then some s!"completed session {uid} still reserved" else none
+              | none => some s!"completed session {uid} disappeared")
+        | none => (o, none)
+      | none => (o, none)
+    | "init" =>
+      match hnum (w.getD 2 ""), rw.head? with
+      | some h, some "x" => ({ o with exh := h :: o.exh }, none)
+      | _, _ => (o, none)
+    | "acc" =>
+      match hnum (w.getD 3 "") with
+      | some h => (if res = "ok" then { o with exh := h :: o.exh } else o, none)
+      | none => (o, none)
+    | "xdrop" =>
+      match hnum (w.getD 1 "") with
+      | some h => ({ o with exh := o.exh.filter (· != h) },
+          if res = "panic" then some "dropping an exchange handle panicked: the node goes down" else none)
+      | none => (o, none)
+    | "evict" | "evictrm" =>
+      match rw with
+      | ["id", u] =>
+        match o.prev.sess (u.toNat?.getD 0) with
+        | some s =>
+          (o, if s.reserved then some s!"eviction chose reserved session {s.uid}"
+              else if !s.live.isEmpty then some s!"eviction chose session {s.uid} which carries a live exchange"
+              else if op = "evictrm" && (snap.sess s.uid).isSome then some "evicted session still in the table"
+              else none)
+        | none => (o, some "eviction chose a session that does not exist")
+      | _ =>
+        (o, if o.afterTick && o.prev.sessions.any idle then some "an idle unreserved session exists but eviction found none" else none)
+    | "qchk" =>
+      if o.rsv.isEmpty && o.exh.isEmpty && o.closerIdle then
+        let leakedR := snap.sessions.find? (·.reserved)
+        let leakedX := snap.sessions.find? (fun s => s.live.any (fun e => e.role != "RP"))
+        (o, match leakedR, leakedX with
+          | some s, _ => some s!"quiescent but session {s.uid} is still reserved"
+          | _, some s => some s!"quiescent but session {s.uid} still holds an exchange slot"
+          | _, _ => none)
+      else (o, none)
+    | _ => (o, none)
+  -- on every snapshot: reserved ⇒ a live ReservedSession owns it
+  let orphanR := snap.sessions.find? (fun s => s.reserved && !o1.rsv.any (·.2 == s.uid))
+  let v := match v with
+    | some x => some x
+    | none => orphanR.map (fun s => s!"session {s.uid} is reserved but no ReservedSession owns it")
+  ({ o1 with prev := snap, afterTick := op = "t" && n 1 > 0, closerIdle := op = "swd" && res = "none" }, v)
+
+def step (st : St) (line : String) : St × String :=
+  let (op, out) := splitArrow line
+  match words op with
+  | "case" :: _ :: kind => ({ m := newCase kind }, "case")
+  | w =>
+    let (res, snapS) := splitHash out
+    let (m', dis) := modelStep st.m op out
+    let (o', ora) := if st.m.isMrp then (st.o, none) else oracle st.o w res (parseSnap snapS)
+    let st' : St := { m := m', o := o' }
+    match ora with
+    | some why => (st', s!"ORA {why}")
+    | none =>
+      match dis with
+      | some mo => (st', s!"DIS {mo}")
+      | none => (st', "ok")
+
+def run : IO UInt32 := Driver.runLoop ({} : St) step
 
 end Driver.C20
